@@ -367,6 +367,28 @@ CLAIMED["C18"] = (
 # Session 3: deep-embedding source ties added to clusters whose tie had been the correspondence only.
 # property -> (sentence appended to the level text, technique)
 SOURCE_TIES = {
+    "C04": ("SESSION 3: the object-level gates are tied too: TraitListObject._item_validator / _validate_length / notifier and the dict / set "
+            "counterparts are translated (harness/translate/pylobj.py, Model/PyLObj.lean) and proved equal to the model "
+            "(C04_item_validator_is_source, C04_notifier_gate_is_source, C04_trait_value_validates, C04_items_event_gate); the list "
+            "constructors are interpreted programs (harness/translate/ctorprog.py: C04_init_is_source — guard before validation, "
+            "'established by whole-value assignment' read off the source); containers declared items=False, index-like objects as "
+            "indices and an exhaustive gate stream (og:) are generated.",
+            "Lean 4 proof (invariant by induction over operations) over a model proved equal to the interpretation of the translated "
+            "source (mutators, guards, object-level validators and gates, constructors), with model-code correspondence check"),
+    "C05": ("SESSION 3: TraitList.__init__ is an interpreted program (C05_init_is_source: private copy of the notifier list); copy / "
+            "pickle methods tied as normalised text (C05_copy_source); PyL tracks aliases of the live list, so an event part that is the "
+            "list itself breaks C05_step_is_source; non-reflexive items (NaN, __eq__ always False) and non-int *= operands are generated.",
+            "Lean 4 proof (refinement + replay law by induction) over a model proved equal to the interpretation of the translated source "
+            "(mutators, helpers, constructor), with model-code correspondence check"),
+    "C06": ("SESSION 3: TraitDictObject._key_validator / _value_validator / notifier translated and tied (C06_validators_are_source, "
+            "C06_notifier_gate_is_source, C06_trait_value_validates: items=False still validates); constructor and copy methods tied as "
+            "normalised text; duck-typed mapping arguments against the builtin dict (F115 known).",
+            "Lean 4 proof (refinement + reconstruction law by induction) over a model proved equal to the interpretation of the translated "
+            "source, with translated factory body and model-code correspondence"),
+    "C07": ("SESSION 3: TraitSetObject.notifier / _validator tied in the abstract-self space (C07_notifier_gate_is_source, "
+            "C07_items_event_gate); copy methods tied as normalised text (C07_copy_is_source).",
+            "Lean 4 proof (refinement + delta law by induction) over a model proved equal to the interpretation of the translated source, "
+            "with model-code correspondence check"),
     "C01": ("SOURCE TIE (session 3): C01_sound_source states soundness (inDomain and Conv of whatever is accepted) of the INTERPRETED C "
             "validators: the source text of every validate_trait_* function and helper of ctraits.c is translated on every run "
             "(harness/translate/cvalidators.py -> Generated/CValidators.lean, language Model/CSrc.lean) and proved equal to the model "
@@ -434,7 +456,10 @@ SOURCE_TIES = {
             "closed) and C18_paths_balanced proves by decide that every path is balanced; harness/translate/ctraverse.py extracts the "
             "tp_traverse / tp_clear / dealloc facts (Props/C18GC.lean: each owned field visited and cleared exactly once, nothing else "
             "visited; raw setters validate before they store). Runtime families: gc.get_referents multisets, frame-local classes with "
-            "cyclic garbage, rejected raw CTrait setter calls followed by use. The defects found (F100-*, F107-F109) were repaired in /repo.",
+            "cyclic garbage, rejected raw CTrait setter calls followed by use, introspection on failing delegate chains. The path analysis now "
+            "covers 134 of the 153 function definitions (C18_paths_unread pins the rest); a second analysis (crefborrows) flags values borrowed "
+            "from a struct field and used after a call that can run arbitrary code (C18_paths_no_stale_borrow with a named exception list; "
+            "F129/F136 confirmed crash known). The defects found (F100-*, F107-F109, F120-F125) were repaired in /repo.",
             "Lean 4 proof (table-index safety, reference ledger, per-path reference balance and GC-slot exactness by decide over translated C "
             "facts) + refcount correspondence; sanitizer, GC and crash-isolated runs as failing-input search"),
     "C17": ("SOURCE TIE (session 3): the source text of _adapt, _get_applicable_offers, the edge comparator, provides_protocol and "
